@@ -452,3 +452,24 @@ Proof.
     split; [reflexivity|]. exists g0. split; [exact P2|]. split; [exact PG|]. split; [exact NN|]. split; [exact QC|].
     intros j Hj. rewrite VE. apply CL. exact Hj.
 Qed.
+
+(* ---- one step of a thread that satisfies the invariant (PARTIAL 3) ----
+   Every step of a thread preserves its invariant T3 and passes every self
+   check (or sets ms_bad), EXCEPT - not proved yet - the visit step inside the
+   nested walk (m_pc = MRun while suspended: the invalidate / refresh steps of a
+   SameFile changer of another counter and the G steps of the own thread; their
+   step lemmas stepI, stepR2, stepG, llook2_prev2 are proved in CounterMultiCtl2). *)
+Theorem thread_step_partial3 ms t ms' t' : MW ms -> T3 ms t -> (susp t = true -> m_pc t <> MRun) ->
+  mstep_core ms t = (ms', t') -> step3 ms t ms' t'.
+Proof.
+  intros W I NR H. destruct (susp t) eqn:Es.
+  - unfold susp in Es. unfold T3 in I. destruct (m_walks t) as [|w ws] eqn:Hw; [discriminate|].
+    destruct (w_own w) as [[r c]|] eqn:Ho; [|discriminate]. destruct I as [IB NWI].
+    pose proof NWI as (_ & _ & _ & _ & g0 & _ & _ & _ & _ & PH).
+    destruct (m_pc t) eqn:Hpc; try contradiction.
+    + exfalso. apply (NR eq_refl). reflexivity.
+    + eapply core3_head; eauto.
+    + eapply core3_next; eauto.
+    + eapply core3_close; eauto.
+  - apply (T3_unsusp ms t Es) in I. destruct I as [I Q]. eapply core3_unsusp; eauto.
+Qed.
